@@ -14,7 +14,7 @@ if args[:1] == ["-j"]:
     jobs = int(args[1]); args = args[2:]
 dirs = sorted(glob.glob("/verif/seeded/C*-*"), key=lambda d: (d.split("/")[-1].split("-")[0], int(d.split("-")[-1])))
 if args:
-    dirs = [d for d in dirs if d.split("/")[-1].split("-")[0] in args]
+    dirs = [d for d in dirs if d.split("/")[-1].split("-")[0] in args or d.split("/")[-1] in args]
 
 
 def sh(cmd, **kw):
@@ -27,11 +27,11 @@ def one(arg):
     pid = name.split("-")[0]
     meta = json.load(open(d + "/meta.json"))
     det = meta.get("confirmed", {}).get("detected_by", "")
-    m = re.match(r"reported by \./check (C\d\d)", det)
+    m = re.search(r"reported by \./check (C\d\d)", det) if not det.startswith("caught") else None
     chk = m.group(1) if m else pid
-    S = "/tmp/regr%d/repo" % slot
+    S = "/tmp/regr%d-%d/repo" % (os.getpid(), slot)
     if not os.path.isdir(S + "/.git") or sh("git -C /repo rev-parse HEAD").stdout != sh("git -C %s rev-parse HEAD" % S).stdout:
-        sh("rm -rf /tmp/regr%d && mkdir -p /tmp/regr%d && cp -r /repo %s" % (slot, slot, S))
+        sh("rm -rf %s && mkdir -p %s && cp -r /repo %s" % (os.path.dirname(S), os.path.dirname(S), S))
     sh("git -C %s checkout -q -- . && git -C %s clean -fdq chempy" % (S, S))
     env = dict(os.environ, PYTHONPATH=S)
     a = subprocess.run(["timeout", "300", "/venv/bin/python", d + "/demo.py"], env=env, stdout=subprocess.DEVNULL,
@@ -60,10 +60,10 @@ bad = 0
 with ThreadPoolExecutor(jobs) as ex:
     for rows in ex.map(run_slot, range(jobs)):
         for name, chk, status, info in rows:
-            print("%-8s %-4s %s" % (name, chk, status), flush=True)
+            print("%-8s %-4s %s%s" % (name, chk, status, "" if status == "reported" else "   " + info), flush=True)
             if not status.startswith("reported"):
                 bad += 1
 for s in range(jobs):
-    sh("rm -rf /tmp/regr%d" % s)
+    sh("rm -rf /tmp/regr%d-%d" % (os.getpid(), s))
 print("stored changes: %d, not reported: %d" % (len(dirs), bad))
 sys.exit(1 if bad else 0)
